@@ -244,13 +244,33 @@ static void check_case(vg::Src& s, vh::Ctx& c)
         }
     // areas and spacing/length accessors (geometry the distances are derived from)
     {
+        double dy = sp.dy, dx = sp.dx;
+        if (sp.from_length)
+        {
+            if (raster)
+                dy = (static_cast<double>(sp.rows - 1) * sp.dy) / (static_cast<double>(sp.rows) - 1);
+            dx = (static_cast<double>(sp.cols - 1) * sp.dx) / (static_cast<double>(sp.cols) - 1);
+        }
         auto spc = g->spacing();
         auto len = g->length();
-        vm::ModelGrid mm = m;
-        double edy = m.nb.empty() ? 0 : 0;
-        (void) edy;
-        (void) spc;
-        (void) len;
+        if (raster)
+        {
+            c.expect(spc.size() == 2 && vg::biteq(spc[0], dy) && vg::biteq(spc[1], dx), "spacing", "spacing() = " + vg::describe_field(spc, 0));
+            c.expect(len.size() == 2 && close4(len[0], static_cast<double>(sp.rows - 1) * dy) && close4(len[1], static_cast<double>(sp.cols - 1) * dx), "length", "length() = " + vg::describe_field(len, 0));
+        }
+        else
+        {
+            c.expect(spc.size() == 1 && vg::biteq(spc[0], dx), "spacing", "spacing() = " + vg::describe_field(spc, 0));
+            c.expect(len.size() == 1 && close4(len[0], static_cast<double>(sp.cols - 1) * dx), "length", "length() = " + vg::describe_field(len, 0));
+        }
+        double cell = raster ? dy * dx : dx;
+        auto areas = g->areas();
+        c.expect(areas.size() == m.n, "areas-size", "");
+        for (size_t i = 0; i < m.n; ++i)
+            if (!vg::biteq(areas[i], cell) || !vg::biteq(g->area(i), cell))
+                c.fail("cell-area", "node " + std::to_string(i) + ": area " + vg::fmt(areas[i]) + " expected " + vg::fmt(cell));
+        auto shp = g->shape();
+        c.expect(g->size() == m.n && (raster ? (shp.size() == 2 && shp[0] == sp.rows && shp[1] == sp.cols) : (shp.size() == 1 && shp[0] == sp.cols)), "shape", "shape()/size()");
     }
     bool two = (raster && (sp.rows == 2 || sp.cols == 2)) || (!raster && sp.cols == 2);
     bool aniso_diag = raster && sp.dy != sp.dx && sp.connect != va::C_ROOK;
